@@ -69,12 +69,13 @@ def hostportsplit (hp : Bytes) : Option (Option Bytes × Option Nat) :=
   | none => none
   | some p => some (hostnameOf hp, p)
 
-/-- the fixed IPv4-literal test of `set_request_uri` (`message.py`, `is_ip_literal`): exactly
-three dots, only digits and dots, every part non-empty with value ≤ 255 (the code checks
-`len(x.lstrip("0")) <= 3 and int(x[-3:]) <= 255`, which for a digit string is `int(x) <= 255`) -/
+/-- the IPv4-literal test of `set_request_uri` (`message.py`, `is_ip_literal`, after the fix that
+makes dotted quads with leading zeros names): exactly three dots, only digits and dots, every
+part an RFC 3986 `dec-octet` — `0 < len(x) <= 3 and (x == "0" or x[0] != "0") and int(x) <= 255` -/
 def ip4Looking (h : Bytes) : Bool :=
   h.count 46 == 3 && h.all (fun c => isDigit c || c == 46) &&
-    (splitOn 46 h).all (fun x => x != [] && decToNat x ≤ 255)
+    (splitOn 46 h).all (fun x => x != [] && x.length ≤ 3 && (x == [48] || x.head? != some 48) &&
+      decToNat x ≤ 255)
 
 /-- `ipaddress.IPv4Address(text)` accepts: four parts of 1–3 ASCII digits, no leading zero
 unless the part is "0", value ≤ 255.  Its `str()` is the text itself. -/
@@ -92,5 +93,23 @@ def ipNormAny (ip : IpOracle) (h : Bytes) : Option Bytes :=
 brackets only count in pairs) -/
 def unbracket (h : Bytes) : Bytes :=
   if h.head? == some 91 && h.getLast? == some 93 then (h.drop 1).dropLast else h
+
+/-- `_zone_is_unreserved(address)` (`message.py`): `all(c in unreserved for c in
+address.partition("%")[2])` — the zone identifier, if there is one, consists of unreserved
+characters only.  Used for a Uri-Host value (`_quote_host`) and for the bracketed literal of a
+URI text (`set_request_uri`). -/
+def zoneOk (address : Bytes) : Bool := (after 37 address).all isUnreserved
+
+/-- the bracket test of `set_request_uri` (`message.py`, "An IP literal in brackets needs to be
+the complete host"): when the authority contains a bracket at all, then with
+`literal, _, port = netloc.partition("]")` the literal starts with the only `[`, the rest is empty
+or starts with `:`, and the literal's zone identifier is unreserved -/
+def literalOk (netloc : Bytes) : Bool :=
+  if netloc.contains 91 || netloc.contains 93 then
+    let literal := before 93 netloc
+    let port := after 93 netloc
+    literal.head? == some 91 && !(literal.drop 1).contains 91 &&
+      (port.head? == none || port.head? == some 58) && zoneOk literal
+  else true
 
 end Aiocoap.Uri
